@@ -121,12 +121,22 @@ static J project(World &w) {
     m.set("chain", chain);
     J queue = J::list();
     {
-        int fuel = 12;
-        for (cocls::awaiter *n = w.mx.*MProbe::queue_mp(); n && fuel--; n = n->_next) {
-            std::string nm = name_of(w, n);
-            queue.push(nm);
-            if (nm == "unknown") break;
-        }
+        // the owner-private queue: an intrusive list through _next as the code keeps it today; a container of
+        // awaiter pointers is projected element by element (representation changes must not break the check)
+        auto walk = [&](auto &q) {      // generic lambda: only the matching branch is instantiated
+            using Q = std::remove_reference_t<decltype(q)>;
+            if constexpr (std::is_pointer_v<Q>) {
+                int fuel = 12;
+                for (cocls::awaiter *n = q; n && fuel--; n = n->_next) {
+                    std::string nm = name_of(w, n);
+                    queue.push(nm);
+                    if (nm == "unknown") break;
+                }
+            } else {
+                for (auto it = q.begin(); it != q.end(); ++it) queue.push(name_of(w, *it));
+            }
+        };
+        walk(w.mx.*MProbe::queue_mp());
     }
     m.set("queue", queue);
     J acts = J::map(), done = J::map(), tryres = J::map(), pend = J::map();
